@@ -174,9 +174,13 @@ func VerifHarness_C16_window() {
 	go func() { doneA <- a.Run(context.Background()) }()
 	<-sA.parked // A's status socket is listening; its steps have not started
 	errB := b.Run(context.Background())
+	// the refused start must leave the first run's status endpoint alone
+	cur, errCur := client.New(sB, "", "", lg).GetCurrentStatus(d)
+	answering := errCur == nil && cur != nil && cur.RequestID == "run-A"
 	sA.resume <- struct{}{}
 	<-doneA
 	vfAssert(errors.Is(errB, errDAGIsAlreadyRunning), "C16.window/second-start-is-refused-once-the-first-run-is-listening")
+	vfAssert(answering, "C16.window/first-run-status-endpoint-keeps-answering-after-the-refusal")
 	vfAssert(vfCount("step-start", 1) == 0 && vfCount("hist-open", 1) == 0, "C16.window/refused-start-runs-and-records-nothing")
 	vfAssert(vfCount("step-start", 0) == 1, "C16.window/first-run-is-not-disturbed")
 	vfReach("end")
